@@ -4,7 +4,7 @@
 -/
 import Hv.Storage.ChronLemmas
 
-namespace Hv.Storage
+namespace Hv.BlockStore
 
 /-! ### A torn block at the end of the file -/
 
@@ -238,4 +238,4 @@ theorem loadFile_prefix_good (c : RCfg) (hc : GoodR c) (nl : Nat) (bs : List Blo
       simp only [fileCells, List.length_append, fhCells_length, nmCells_length] at this
       omega
 
-end Hv.Storage
+end Hv.BlockStore
